@@ -251,13 +251,14 @@ def run_reader(ctx, ddef, npda, words, cap, size_cap, tag):
         fuel = len(ys) + 1 if out is not None else len(ys) - 1
         runs.append((w, ys, out, it, fuel))
         items.append((2, 1 if npda else 2, enc.tree([ttree, cd.sy.word(w), fuel])))
-    answers = ctx.driver.batch(items)
     ranking = find_ranking(ddef, npda)
     if ranking is None:
         rk_list, rk_n = [0] * len(cd.st), 0
     else:
         rk_list, rk_n = [ranking[0][q] for q in cd.st.names], ranking[1]
-    bounds = ctx.driver.batch([(2, 4, enc.tree([ttree, rk_list, rk_n, cd.sy.word(w)])) for w in words])
+    items += [(2, 4, enc.tree([ttree, rk_list, rk_n, cd.sy.word(w)])) for w in words]
+    answers = ctx.driver.batch(items)
+    answers, bounds = answers[:len(runs)], answers[len(runs):]
     ctx.tally("table_ranked" if ranking is not None else "table_not_ranked")
     verdicts = {}
     for (w, ys, out, it, fuel), ans, bd in zip(runs, answers, bounds):
